@@ -91,7 +91,7 @@ func hasNC(l gen.List) bool {
 	for _, s := range l {
 		if len(s.K) > 1 && s.K[0] == 'N' && s.K != "N" {
 			switch s.K {
-			case "NGoto", "NLbl", "NLbl3", "NLoopCapture", "NSelect", "NDefer", "NFall", "NRangePtrArr":
+			case "NGoto", "NLbl", "NLbl3", "NLoopCapture", "NSelectBreak", "NRangePtrBrk", "NSelect", "NDefer", "NFall", "NRangePtrArr":
 				return true
 			}
 		}
